@@ -641,3 +641,47 @@ def mc(ctx):
 
 
 RULES.append(mc)
+
+
+@rule("L7", doc="the printers' separator arithmetic cannot underflow: `len(x) - 1` is evaluated only inside the loop over x (where x is non-empty), so an empty multi-pattern / a node without elements prints instead of panicking")
+def l7(ctx):
+    crate = ctx.lib()
+    n = 0
+    for b0 in crate.fns():
+        if not (b0.name == "fmt" and (b0.impl_trait or "").endswith("fmt::Display") and (b0.file or "").endswith("parse.rs")):
+            continue
+        b = mir.inline_view(crate, b0)
+        loops = C.iterator_loops(b)
+        for bi, blk in enumerate(b.blocks):
+            t = blk["term"]
+            if blk["cleanup"] or t["k"] != "assert" or "overflow_sub" not in str(t.get("akind")):
+                continue
+            # the checked subtraction feeding this assert
+            subs = [s for s in blk["stmts"] if s["k"] == "assign" and s["rv"]["k"] == "bin" and s["rv"].get("op") == "SubWithOverflow"]
+            if not subs:
+                continue
+            n += 1
+            a = strip_role(b.role_of_operand(subs[-1]["rv"]["a"]))
+            c_ = strip_role(b.role_of_operand(subs[-1]["rv"]["b"]))
+            ok = False
+            why = "not of the form len(x) - 1"
+            if isinstance(a, tuple) and a[0] == "call" and a[1] == "len" and a[3] and c_[0] == "const" and str(c_[1]).startswith("1_"):
+                x = role_str(strip_role(a[3][0]), 6)
+                why = "len(%s) - 1 is evaluated outside every loop over %s" % (x, x)
+                for lp in loops:
+                    sb_, it, none_e, some_e, cs_ = lp
+                    inside = bi in b.reach(some_e, avoid=none_e) and b.dominated_by(bi, some_e)
+                    if inside and x in role_str(it, 12):
+                        ok = True
+            ctx.check(ok, "separator-arithmetic-in-loop:%s:%d" % (C.fkey(b0), n), "%s computes len - 1 only while it iterates the (non-empty) collection" % C.short(b0.id),
+                      "%s can underflow: %s — printing an empty value (the multi-pattern parsed from \"\", a node without syntax elements) panics with 'attempt to subtract with overflow' instead of producing text that parses back" % (C.short(b0.id), why),
+                      where_of(b, bi))
+    # (no floor: a printer without any subtraction has nothing to underflow)
+    ctx.info("checked subtractions in the printers: %d" % n)
+    if n == 0:
+        ctx.ok("separator-arithmetic-in-loop:none", "the printers contain no checked subtraction")
+    fm = [b0 for b0 in crate.fns() if b0.name == "fmt" and (b0.impl_trait or "").endswith("fmt::Display") and (b0.file or "").endswith("parse.rs")]
+    ctx.floor("printers in parse.rs", len(fm), 2)
+
+
+RULES.append(l7)
